@@ -4,6 +4,7 @@ Property theorems only (obligations of ./check C18).  The schemas (`Gen.*Schema`
 tables (`Gen.*Fields`) are regenerated from /repo on every run, so the theorems are re-proved against
 what docs/api/schemas/*.json and the Go struct tags say now.
 -/
+import LfsModel.Gen
 import LfsModel.GenApi
 import LfsModel.ApiReq
 import LfsModel.UrlEscape
@@ -213,5 +214,15 @@ theorem unlock_url_injective (a b : UrlEsc.Bytes) (h : UrlEsc.unlockSuffix a = U
 
 /-- `a?b#/ ` ↦ `a%3Fb%23%2F%20` -/
 example : UrlEsc.pathEscape [97, 63, 98, 35, 47, 32] = [97, 37, 51, 70, 98, 37, 50, 51, 37, 50, 70, 37, 50, 48] := by decide
+
+/-! tie to lfsapi/auth.go as it is in /repo now -/
+/-- after an auth error doWithAuth deletes the request's Authorization header in ONE place, and only when git-lfs
+    itself had filled it from the credential helper (`credWrapper.Creds != nil`): a header the offered action
+    supplied stays on the request, so no resubmission goes out without it or with the user's own credentials -/
+theorem gen_offered_authorization_is_never_deleted :
+    Gen.authHeaderDeletions =
+      [[34, 65, 117, 116, 104, 111, 114, 105, 122, 97, 116, 105, 111, 110, 34, 32, 124, 32, 101, 114, 114, 32, 33, 61, 32, 110, 105, 108, 32, 38, 38, 32, 101, 114, 114, 111, 114, 115, 46, 73, 115, 65, 117, 116, 104, 69, 114, 114, 111, 114, 40, 101, 114, 114, 41, 32, 38, 38, 32, 99, 114, 101, 100, 87, 114, 97, 112, 112, 101, 114, 46, 67, 114, 101, 100, 115, 32, 33, 61, 32, 110, 105, 108]]
+        -- "Authorization" | err != nil && errors.IsAuthError(err) && credWrapper.Creds != nil
+      := by decide
 
 end C18
